@@ -64,6 +64,11 @@ def main():
         sh(["go", "run", ".", "-repo", "/repo", "-out", os.path.join(VERIF, "lean", "FunGen")],
            cwd=os.path.join(VERIF, "tools", "go2lean"),
            env=dict(os.environ, GOFLAGS="-mod=mod", GOPROXY="off", GOSUMDB="off", GOTOOLCHAIN="local"))
+        lf = os.path.join(VERIF, ".work", "bin", "lockfacts")
+        if os.path.exists(lf):
+            sh([lf, "-repo", "/repo", "-classes", os.path.join(VERIF, "tools", "lockfacts", "classes.json"),
+                "-lean", os.path.join(VERIF, "lean", "FunGen", "LockFacts.lean"), "-json", "/dev/null",
+                "-known", os.path.join(VERIF, "known-findings.jsonl")], cwd=os.path.join(VERIF, "tools", "lockfacts"))
     # keep the rows of earlier (partial) runs for changes not re-run now
     res = os.path.join(VERIF, "seeded", "RESULTS.md")
     done = {(r[0], r[1]) for r in rows}
